@@ -70,6 +70,11 @@ impl EPlan {
 
 const GUARD: usize = 8;
 
+/// when set, `one_call` goes through the `Vec<u8>`-receiving methods (`encode_from_utf8_to_vec*`), with a
+/// vector whose spare capacity is exactly the call's capacity and holds old bytes (C05/C06/C18: the spare
+/// capacity is exposed as initialised output)
+pub static VEC_SINK: std::sync::atomic::AtomicBool = std::sync::atomic::AtomicBool::new(false);
+
 pub fn one_call(e: &mut Encoder, p: &EPlan, src8: &str, src16: &[u16], cap: usize, last: bool, fill: u8, align: usize) -> ECall {
     let mut buf = vec![fill; cap + 2 * GUARD + 16];
     let off = GUARD + (align % 16);
@@ -99,6 +104,64 @@ pub fn one_call(e: &mut Encoder, p: &EPlan, src8: &str, src16: &[u16], cap: usiz
     } else {
         (e.max_buffer_length_from_utf8_without_replacement(src8.len()), e.max_buffer_length_from_utf8_if_no_unmappables(src8.len()))
     });
+    if VEC_SINK.load(std::sync::atomic::Ordering::Relaxed) && !p.utf16 {
+        let old = fill ^ 0x5A;
+        let mut v: Vec<u8> = Vec::with_capacity(cap + 5 + (align % 16));
+        let total = v.capacity();
+        v.resize(total, old);
+        v.truncate(total - cap); // spare capacity is now exactly `cap` and holds old bytes
+        let before = v.len();
+        let repl = p.repl;
+        let s8 = src8.to_string();
+        let r = {
+            let eref = std::panic::AssertUnwindSafe(&mut *e);
+            let vref = std::panic::AssertUnwindSafe(&mut v);
+            catch(move || {
+                let mut eref = eref;
+                let mut vref = vref;
+                if repl {
+                    let (r, rd, hu) = eref.encode_from_utf8_to_vec(&s8, &mut vref, last);
+                    (
+                        match r {
+                            CoderResult::InputEmpty => ERes::InputEmpty,
+                            CoderResult::OutputFull => ERes::OutputFull,
+                        },
+                        rd,
+                        Some(hu),
+                    )
+                } else {
+                    let (r, rd) = eref.encode_from_utf8_to_vec_without_replacement(&s8, &mut vref, last);
+                    (
+                        match r {
+                            EncoderResult::InputEmpty => ERes::InputEmpty,
+                            EncoderResult::OutputFull => ERes::OutputFull,
+                            EncoderResult::Unmappable(c) => ERes::Unmappable(c as u32),
+                        },
+                        rd,
+                        None,
+                    )
+                }
+            })
+        };
+        match r {
+            Ok((res, rd, hu)) => {
+                rec.res = res;
+                rec.read = rd;
+                rec.had_unmappables = hu;
+                if v.len() < before || v.len() > total || v.capacity() != total {
+                    rec.guard_broken = true;
+                } else {
+                    rec.bytes = v[before..].to_vec();
+                }
+                if v[..before.min(v.len())].iter().any(|&b| b != old) {
+                    rec.guard_broken = true;
+                }
+            }
+            Err(m) => rec.res = ERes::Panic(m),
+        }
+        rec.has_pending = e.has_pending_state();
+        return rec;
+    }
     let r = {
         let dst = &mut buf[off..off + cap];
         let eref = std::panic::AssertUnwindSafe(&mut *e);
@@ -501,6 +564,28 @@ pub fn oracles(out: &mut Out, p: &EPlan, o: &EOutcome, props: &[&str]) {
             let want_text = expected_roundtrip(p.enc, &p.units16);
             if had_err || back != want_text {
                 out.fail("C12", &lhs, format!("complete output decodes to {:?}, expected {:?}", back, want_text));
+            }
+        }
+    }
+    // C05/C06/C18: the Vec-receiving methods behave exactly like the slice methods on a destination of
+    // the size of the spare capacity, whatever the spare capacity held, and leave the vector's old contents alone
+    if (want("C18") || want("C05") || want("C06") || want("C04")) && !p.utf16 && o.aborted.is_none() {
+        VEC_SINK.store(true, std::sync::atomic::Ordering::Relaxed);
+        let o2 = run_plan(p, 0x33);
+        VEC_SINK.store(false, std::sync::atomic::Ordering::Relaxed);
+        out.oracle_evals += 1;
+        let which = if want("C18") { "C18" } else if want("C05") { "C05" } else if want("C06") { "C06" } else { "C04" };
+        if o2.calls.len() != o.calls.len() {
+            out.fail(which, &lhs, format!("Vec-receiving methods: {} calls instead of {} for the same plan", o2.calls.len(), o.calls.len()));
+        } else {
+            for (i, (a, b)) in o.calls.iter().zip(o2.calls.iter()).enumerate() {
+                if b.guard_broken {
+                    out.fail(which, &lhs, format!("call#{} Vec-receiving method changed the vector's old contents, its capacity, or shrank it", i));
+                }
+                if a.res != b.res || a.read != b.read || a.bytes != b.bytes || a.had_unmappables != b.had_unmappables || a.has_pending != b.has_pending {
+                    out.fail(which, &lhs, format!("call#{} Vec-receiving method differs from the slice method with the same capacity: {} read {} bytes {} vs {} read {} bytes {}", i, b.res.show(), b.read, hex(&b.bytes), a.res.show(), a.read, hex(&a.bytes)));
+                    break;
+                }
             }
         }
     }
